@@ -154,6 +154,14 @@ func setup() {
 		bad, _ := build.JPEG{Segs: []build.Seg{{Marker: 0xE0, Data: []byte("JFIF\x00\x01\x01\x00\x00\x01\x00\x01\x00\x00")}, {Marker: m, Data: build.SOF(8, 7, 9, [][3]byte{{1, 0x11, 0}})}}, SOS: []byte{1, 1, 0, 0, 63, 0}}.Bytes()
 		damaged = append(damaged, bad)
 	}
+	// inputs on which a loader recovers from an internal panic (a frame header too short to hold its fields), with
+	// and without part of a multi-chunk profile collected before it
+	for _, n := range []int{0, 1, 4} {
+		short, _ := build.JPEG{Segs: []build.Seg{{Marker: 0xC0, Data: make([]byte, n)}}, SOS: []byte{1, 1, 0, 0, 63, 0}}.Bytes()
+		short2, _ := build.JPEG{Segs: []build.Seg{build.ICCSeg(1, 2, []byte("abcdef")), {Marker: 0xC2, Data: make([]byte, n)}}, SOS: []byte{1, 1, 0, 0, 63, 0}}.Bytes()
+		short3, _ := build.JPEG{Segs: []build.Seg{{Marker: 0xC0, Data: build.SOF(8, 480, 640, [][3]byte{{1, 0x11, 0}})}, {Marker: 0xC0, Data: make([]byte, n)}}, SOS: []byte{1, 1, 0, 0, 63, 0}}.Bytes()
+		damaged = append(damaged, short, short2, short3)
+	}
 	bp, _ := build.PNG{W: 3, H: 3, Depth: 8, ColorType: 2, Pre: []build.Chunk{build.RawICCPChunk("toolong-name-without-terminator-................................................................", []byte{1})}, IDAT: []byte{1}}.Bytes()
 	damaged = append(damaged, bp, []byte("\x89PNG\r\n\x1a\n\x00\x00\x00\x0dIHDX"), []byte("RIFF\x04\x00\x00\x00WEBX"))
 }
